@@ -426,7 +426,7 @@ def run_shard(spec):
         if not ci.cls.syntax.formal_arguments:
             n = 1
         else:
-            n = max(6, min(spec["n"], 4 * en.slot_cardinality(ci)))
+            n = max(6, min(spec["n"], (4 if spec["n"] <= 200 else 40) * en.slot_cardinality(ci)))
         for _ in range(n):
             facts = []
             a = en.assignment(ci, facts)
